@@ -154,5 +154,6 @@ def run(tier, seed):
     # through the command line: `python -m nauyaca serve --config <file>` with four access-control sections
     import livetls
     livetls.run_cli_policies(res, tier)
-    res.rule += " | plus the CLI: serve --config with default-deny-only / allow-loopback / deny-loopback / deny-other policies, request from 127.0.0.1"
+    livetls.run_config_matrix(res, tier, "C09", seed)
+    res.rule += " | plus the CLI: serve --config with default-deny-only / allow-loopback / deny-loopback / deny-other policies, request from 127.0.0.1; the same policies inside generated configurations (log levels, rate-limit sections, flags, environment overrides)"
     return res
